@@ -126,6 +126,9 @@ def _run_task(modname, fname, kwargs):
 	t0 = time.time()
 	from mc import build
 	build.assert_tree()
+	# a forkserver worker inherits 'forkserver' as its default start method; gambit's own pools must see the platform default
+	# (fork on Linux), as they would in a user's process
+	multiprocessing.set_start_method('fork', force=True)
 	mod = importlib.import_module(modname)
 	try:
 		sh = getattr(mod, fname)(**kwargs)
